@@ -12,6 +12,7 @@ from mc import payload as P
 from mc.termcheck import short
 
 PROPERTY = "C15"
+PAYLOAD_SEEDS = {"thorough": [0, 1, 2, 3]}  # the thorough tier repeats the whole enumeration for four payload seeds
 ASSUMPTIONS = [
     "tolerances: orthonormality 1e-8, Arnoldi relation 1e-8 ||A||, eigenvalues from arnoldi_eigs 1e-7 ||A||",
     "weakest reading at m = n and at a breakdown of dimension d: n + 1 orthonormal columns cannot exist, so the first min(m+1, n, d) columns "
